@@ -7,6 +7,7 @@ package verifcheck
 
 import (
 	"fmt"
+	"sort"
 	"strings"
 	"testing"
 
@@ -42,7 +43,11 @@ func c11GenRelSubset(t *rapid.T, rels []string, label string) []string {
 
 func c11GenCase() *rapid.Generator[c11Case] {
 	return rapid.Custom(func(t *rapid.T) c11Case {
+		shape := rapid.SampledFrom([]string{"random", "chain", "spine", "ring", "diamond", "two-way-chain", "random", "chain"}).Draw(t, "shape")
 		n := rapid.SampledFrom([]int{7, 6, 5, 7, 4, 6, 3, 7, 5, 2}).Draw(t, "n")
+		if shape == "spine" {
+			n = c11MaxNodes // one chain through all seven nodes: the only way to be 6 hops away
+		}
 		nrel := rapid.SampledFrom([]int{1, 2, 2, 3}).Draw(t, "nrel")
 		rels := c11RelNames[:nrel]
 		c := c11Case{N: n}
@@ -71,7 +76,6 @@ func c11GenCase() *rapid.Generator[c11Case] {
 		}
 
 		// backbone
-		shape := rapid.SampledFrom([]string{"random", "random", "chain", "chain", "ring", "diamond", "two-way-chain"}).Draw(t, "shape")
 		perm := rapid.Permutation(func() []int {
 			x := make([]int, n)
 			for i := range x {
@@ -80,8 +84,11 @@ func c11GenCase() *rapid.Generator[c11Case] {
 			return x
 		}()).Draw(t, "perm")
 		switch shape {
-		case "chain", "ring", "two-way-chain":
+		case "chain", "ring", "two-way-chain", "spine":
 			l := n - rapid.IntRange(0, n-2).Draw(t, "chainshort") // rapid favours small draws: long chains are the common case
+			if shape == "spine" {
+				l = n
+			}
 			for i := 0; i+1 < l; i++ {
 				if shape == "two-way-chain" && rapid.Bool().Draw(t, "flip") {
 					link(perm[i+1], perm[i], relOf("rel"))
@@ -111,6 +118,9 @@ func c11GenCase() *rapid.Generator[c11Case] {
 		extra := rapid.IntRange(0, 14).Draw(t, "extra")
 		if shape == "random" {
 			extra += 3
+		}
+		if shape == "spine" {
+			extra = extra % 4 // keep the long chain mostly free of shortcuts
 		}
 		for i := 0; i < extra; i++ {
 			k := rapid.IntRange(0, 99).Draw(t, "opkind")
@@ -146,7 +156,8 @@ func c11GenCase() *rapid.Generator[c11Case] {
 		// pairs that are >= 2 hops apart in the final graph (all relations), to aim half of the queries at
 		type pair struct{ s, t, d int }
 		var far []pair
-		var ends []int // nodes from which some node is >= 4 hops away (either direction)
+		var ends []int // nodes from which some node is >= 4 hops away (either direction), farthest first
+		ecc := make([]int, n)
 		{
 			lm, _ := c11LogicalModel(c)
 			g := lm.adj(n, 0, rels)
@@ -159,12 +170,15 @@ func c11GenCase() *rapid.Generator[c11Case] {
 				}
 				u := g.dist(s, "both")
 				for x := 0; x < n; x++ {
-					if u[x] != c11Inf && u[x] >= 4 {
-						ends = append(ends, s)
-						break
+					if u[x] != c11Inf && u[x] > ecc[s] {
+						ecc[s] = u[x]
 					}
 				}
+				if ecc[s] >= 4 {
+					ends = append(ends, s)
+				}
 			}
+			sort.SliceStable(ends, func(i, j int) bool { return ecc[ends[i]] > ecc[ends[j]] })
 		}
 		nq := rapid.IntRange(7, 13).Draw(t, "nq")
 		for i := 0; i < nq; i++ {
@@ -197,7 +211,7 @@ func c11GenCase() *rapid.Generator[c11Case] {
 				if aim && len(ends) > 0 {
 					q.Src = rapid.SampledFrom(ends).Draw(t, "end")
 					q.Rels = append([]string{}, rels...)
-					q.Depth = rapid.SampledFrom([]int{5, 4, 6, 7, 3}).Draw(t, "enddepth")
+					q.Depth = rapid.SampledFrom([]int{5, 6, 4, 7, 3}).Draw(t, "enddepth")
 				}
 			case "search":
 				q.Rels = c11GenRelSubset(t, qrels, "qrels")
@@ -206,7 +220,7 @@ func c11GenCase() *rapid.Generator[c11Case] {
 				if aim && len(ends) > 0 {
 					q.Src = rapid.SampledFrom(ends).Draw(t, "end")
 					q.Rels = append([]string{}, rels...)
-					q.Depth = rapid.SampledFrom([]int{5, 4, 6, 7, 3}).Draw(t, "enddepth")
+					q.Depth = rapid.SampledFrom([]int{5, 6, 4, 7, 3}).Draw(t, "enddepth")
 					q.Dir = rapid.SampledFrom([]string{"both", "out", "in"}).Draw(t, "enddir")
 				}
 			case "trav":
@@ -226,7 +240,7 @@ func c11GenCase() *rapid.Generator[c11Case] {
 	})
 }
 
-const c11Rule = "rapid-generated directed multigraphs on 2-7 nodes (backbone: random / chain / ring / two routes of different length / chain with flipped edges, then 0-17 random edits), 1-3 relation names, built through VLink (optionally with inverse relation, weight change = new edge version) and soft/hard VUnlink, some nodes without a vector; then 7-13 queries: FindPath (source, target, relation subset, depth 0-6, time = now / sampled between ops / exactly at a recorded op timestamp / 1 ns before or after it), VExtractSubgraph (root, relation subset, depth 1-7, same times), graph-scoped VSearch (root, relation subset, direction default/out/in/both, depth 1-7), VTraverse (1-2 relation paths of 1-13 segments); every answer compared with a reference BFS over the model's edge versions. NON-TRIVIAL = at least one FindPath query whose shortest path has >= 2 hops while the graph it sees (allowed relations, queried time) also contains a longer simple path between the same nodes or a directed cycle"
+const c11Rule = "rapid-generated directed multigraphs on 2-7 nodes (backbone: random / chain / chain through all 7 nodes / ring / two routes of different length / chain with flipped edges, then 0-17 random edits), 1-3 relation names, built through VLink (optionally with inverse relation, weight change = new edge version) and soft/hard VUnlink, some nodes without a vector; then 7-13 queries: FindPath (source, target, relation subset, depth 0-6, time = now / sampled between ops / exactly at a recorded op timestamp / 1 ns before or after it), VExtractSubgraph (root, relation subset, depth 1-7, same times), graph-scoped VSearch (root, relation subset, direction default/out/in/both, depth 1-7), VTraverse (1-2 relation paths of 1-13 segments); every answer compared with a reference BFS over the model's edge versions. NON-TRIVIAL = at least one FindPath query whose shortest path has >= 2 hops while the graph it sees (allowed relations, queried time) also contains a longer simple path between the same nodes or a directed cycle"
 
 func TestVerif_C11_graphs(t *testing.T) {
 	col := verifkit.New("C11", "graphs", c11Rule)
@@ -337,8 +351,8 @@ func TestVerif_C11_exhaustive3(t *testing.T) {
 			t.Errorf("digraph #%d: %s", mask, msg)
 		}
 	}
-	col.Extra("graphs_enumerated", graphs)
-	col.Extra("queries_enumerated", queries)
+	col.Label("count:graphs-enumerated", graphs)
+	col.Label("count:queries-enumerated", queries)
 	col.SetExhaustive(stride == 1)
 	if stride != 1 {
 		col.Note("quick tier samples every 8th of the 512 digraphs; the thorough tier enumerates all of them")
